@@ -53,7 +53,8 @@ def run(tier, rep):
     rep.exhaustive = True
     # deeper histories by seeded sampling (TLC -simulate would do the same walk; the walk is a uniform choice of operations)
     rnd = random.Random(lib.seed())
-    for _ in range(300 if quick else 5000):
+    nexh = len(hists)
+    for _ in range(300 if quick else 3000):
         n = 5 if quick else 8
         hists.append([rnd.choice(OPS) for _ in range(n)])
     fl = d / "files.json"
@@ -61,7 +62,9 @@ def run(tier, rep):
     jobs, outs = [], []
     hosts = [lib.MAIN_HOST] if quick else lib.available(["3.8", "3.12", "3.13"])
     for h in hosts:
-        for i, ch in enumerate(bcrun.chunks(hists, 12)):
+        # the exhaustive length-3 product runs on the main host; the other hosts replay histories up to length 2 and the sampled ones
+        mine = hists if h == lib.MAIN_HOST else [x for x in hists[:nexh] if len(x) <= 2] + hists[nexh:]
+        for i, ch in enumerate(bcrun.chunks(mine, 12)):
             inp = d / ("h-%s-%d.ndjson" % (h, i))
             inp.write_text("\n".join(json.dumps({"hist": x}) for x in ch) + "\n")
             out = d / ("s-%s-%d.ndjson" % (h, i))
